@@ -67,10 +67,19 @@ TARGETS = [
         "MethodDocumentation.process",
         "AttributeDocumentation.process",
         "ModuleDocumentation.process",
+        # batch 5: the methods that call other process methods (after them), and the last concrete class
+        "ClassDocumentation.process",
+        "DanglingDoccomment.process",
     ]),
     ("src/cminx/documenter.py", [
         # the decision part: everything before the final rendering loop (dynamic dispatch)
         ("Documenter.process_docs", {"drop_last": "for doc in docs:\n    doc.process(self.writer)"}),
+        # batch 5: the whole method, including the rendering loop
+        ("Documenter.process_docs", {"name": "Documenter_process_docs_whole"}),
+        # batch 5, part 3: the pure glue around it
+        ("Documenter.process", {"name": "Documenter_process_after_walk",
+                                "after_stmt": "self.walker.walk(self.aggregator, tree)"}),
+        ("Documenter.__init__", {"name": "Documenter_init_writer", "from_assign": "title", "to_field": "writer"}),
     ]),
     ("src/cminx/__init__.py", [
         # the naming computation: from the first assignment of prefix to the last one of module_name
@@ -97,6 +106,7 @@ RESERVED = {"s", "at", "as", "in", "if", "then", "else", "let", "fun", "forall",
 WORLD = "world"          # the threaded RST document of functions that take an RSTWriter
 
 WRITER_CLASSES = {"RSTWriter", "Directive"}
+WRITER_FILE = "src/cminx/rstwriter.py"
 
 
 class Unsupported(Exception):
@@ -151,6 +161,8 @@ def coq_type(t, top=True):
         return "DocTypes.method"
     if t == "attribute":
         return "DocTypes.attribute"
+    if t == "innerclass":
+        return "str"
     if isinstance(t, tuple) and t[0] == "record":
         r = " * ".join(coq_type(ft, False) for _, ft, _ in t[2])
         return r if top else "(" + r + ")"
@@ -275,6 +287,13 @@ class Module:
         self.enums = {}      # name -> [members]
         self.classes = {}    # name -> ClassDef
         self.functions = {}  # qualified name -> (FunctionDef, class name or None)
+        self.imports = {}    # name bound by `from .m import name` -> (source file of m, name)
+        for n in tree.body:
+            if isinstance(n, ast.ImportFrom) and n.level == 1 and n.module and "." not in n.module:
+                target = str(Path(rel).parent / (n.module + ".py"))
+                for al in n.names:
+                    if al.asname is None and al.name != "*":
+                        self.imports[al.name] = (target, al.name)
         for n in tree.body:
             if isinstance(n, ast.ClassDef):
                 self.classes[n.name] = n
@@ -325,6 +344,8 @@ class Module:
                 # an object of one of these classes that is held in a field / record / list is an
                 # element of self.documented: its position there
                 return ("ref", DOCUMENTED)
+            if a.id in PART_CLASS_TYPES and (a.id in self.classes or a.id in self.imports):
+                return PART_CLASS_TYPES[a.id]      # an object that lives inside a class entry
             if a.id in self.classes and a.id not in self.enums and self.is_dataclass(a.id):
                 return self.record_type(a.id)
             return None
@@ -354,6 +375,22 @@ class Module:
                         return ("union", u[1])      # a member of the Enum class or a str
             return None
         return None
+
+    def field_class_names(self, cname):
+        """{field: class name} for the fields of cname annotated with a plain class name (class attributes and the
+        annotated self.f assignments of __init__)"""
+        out = {}
+        c = self.classes[cname]
+        for m in c.body:
+            if isinstance(m, ast.AnnAssign) and isinstance(m.target, ast.Name) and isinstance(m.annotation, ast.Name):
+                out[m.target.id] = m.annotation.id
+            if isinstance(m, ast.FunctionDef) and m.name == "__init__":
+                for st in m.body:
+                    if isinstance(st, ast.AnnAssign) and isinstance(st.target, ast.Attribute) \
+                            and isinstance(st.target.value, ast.Name) and st.target.value.id == "self" \
+                            and isinstance(st.annotation, ast.Name):
+                        out.setdefault(st.target.attr, st.annotation.id)
+        return out
 
     def is_dataclass(self, cname):
         c = self.classes[cname]
@@ -399,7 +436,7 @@ class Module:
                     out.setdefault(k, v)
         for m in c.body:
             if isinstance(m, ast.AnnAssign) and isinstance(m.target, ast.Name):
-                out[m.target.id] = self.annotation(m.annotation)
+                out[m.target.id] = FIELD_TYPE_OVERRIDES.get((cname, m.target.id)) or self.annotation(m.annotation)
         for m in c.body:
             if isinstance(m, ast.FunctionDef) and m.name == "__init__":
                 ptypes = {a.arg: self.annotation(a.annotation) for a in m.args.args}
@@ -444,6 +481,10 @@ def target_names(stmts, in_loop=False):
                 and not (isinstance(t.value, ast.Name) and t.value.id == "self"):
             add(DOCUMENTED)     # R.has_kwargs = v / R.members.append(v): the object R denotes is in self.documented
         elif isinstance(t, ast.Attribute) and isinstance(t.value, ast.Attribute) \
+                and isinstance(t.value.value, ast.Name) and t.value.value.id == "self" \
+                and t.attr == "title" and t.value.attr in WORLD_TITLE_FIELDS:
+            add(WORLD)      # self.writer.title = E in a function that threads the document: a writer step
+        elif isinstance(t, ast.Attribute) and isinstance(t.value, ast.Attribute) \
                 and isinstance(t.value.value, ast.Name) and t.value.value.id == "self":
             add(f"self.{t.value.attr}.{t.attr}")        # self.writer.title
         elif isinstance(t, ast.Attribute) and isinstance(t.value, ast.Name):
@@ -472,9 +513,23 @@ def target_names(stmts, in_loop=False):
                         add("@shift:" + c.func.value.id)    # the references into that list move
                 elif c.func.attr in WRITER_METHODS:
                     add(WORLD)
+                elif c.func.attr in OBJ_METHOD_NAMES and isinstance(c.func.value, ast.Name) \
+                        and c.func.value.id != "self":
+                    add(WORLD)      # v.process(w): a translated method of a documentation object writes to w
                 elif isinstance(c.func.value, ast.Name) and c.func.value.id == "self" and c.func.attr in METHODS:
                     for f_, _ in METHODS[c.func.attr]["out"]:
                         add("self." + f_)
+                elif isinstance(c.func.value, ast.Name) and c.func.value.id == "self" \
+                        and c.func.attr in WORLD_METHODS:
+                    # a method of the same class that threads the document: the document, the fields it assigns and
+                    # the list arguments it mutates in place change
+                    info_ = WORLD_METHODS[c.func.attr]
+                    add(WORLD)
+                    for f_, _ in info_["out"]:
+                        add("self." + f_)
+                    for i_, (pn_, _, _) in enumerate(info_["params"]):
+                        if pn_ in info_["out_params"] and i_ < len(c.args):
+                            lhs(c.args[i_])
             prefix = getattr_dispatch_prefix(c) if isinstance(c, ast.Call) else None
             if prefix is not None:
                 # getattr(self, f"<prefix>{..}")(..): any translated method with that prefix may run
@@ -489,6 +544,9 @@ def target_names(stmts, in_loop=False):
                 calls(st.value)
                 for t in st.targets:
                     lhs(t)
+            elif isinstance(st, ast.AnnAssign) and st.value is not None:
+                calls(st.value)
+                lhs(st.target)
             elif isinstance(st, ast.AugAssign):
                 lhs(st.target)
             elif isinstance(st, ast.Expr):
@@ -669,6 +727,34 @@ LOG_METHODS = {"debug", "info", "warning", "error", "critical", "exception"}
 
 WRITER_METHODS = {"directive", "text", "field", "option", "bulleted_list", "enumerated_list", "doctest"}
 
+# ---- batch 5: the declared representation tables of the rendering loop ----
+# Objects that live INSIDE a class entry, as values of Model.DocTypes.method / attribute:
+# translator type -> (Python class, {dataclass field: (projection, type of the field as the translator sees it)}).
+# The set of fields must be exactly the dataclass fields the source declares for the class (checked).
+PART_ACCESSORS = {
+    "method": ("MethodDocumentation", {
+        "name": ("DocTypes.m_name", "str"), "doc": ("DocTypes.m_doc", "str"),
+        "parent_class": ("DocTypes.m_parent", "str"), "param_types": ("DocTypes.m_types", ("list", "str")),
+        "params": ("DocTypes.m_params", ("list", "str")), "is_constructor": ("DocTypes.m_ctor", "bool"),
+        "is_macro": ("DocTypes.m_macro", "bool")}),
+    "attribute": ("AttributeDocumentation", {
+        "name": ("DocTypes.a_name", "str"), "doc": ("DocTypes.a_doc", "str"),
+        "parent_class": ("DocTypes.a_parent", "str"), "default_value": ("DocTypes.a_default", ("opt", "str"))}),
+}
+PART_CLASS_TYPES = {v[0]: k for k, v in PART_ACCESSORS.items()}
+# A field whose representation differs from what its annotation alone says.  DocTypes.EClass keeps the NAMES of
+# the inner classes (see py_entry_add_inner_class): an element is of type 'innerclass' (a str), and the only
+# thing that can be read of it is .name
+FIELD_TYPE_OVERRIDES = {("ClassDocumentation", "inner_classes"): ("list", "innerclass")}
+# The dynamic dispatch  x.process(w)  for x annotated DocumentationType: root class, method, source file
+DISPATCH_ROOT = ("DocumentationType", "process", "src/cminx/documentation_types.py")
+# Concrete subclasses of the root that are NOT constructors of Model.DocTypes.entry, and why a list of
+# documentation objects never holds one: "part" = the translator types them as DocTypes.method / attribute, which
+# no list of entries accepts; "never constructed" = checked: no call of the class in PRODUCER_FILES
+NON_ENTRY_CLASSES = {"MethodDocumentation": "part", "AttributeDocumentation": "part",
+                     "DanglingDoccomment": "never constructed"}
+PRODUCER_FILES = ["src/cminx/aggregator.py", "src/cminx/documenter.py", "src/cminx/__init__.py"]
+
 
 class Var:
     __slots__ = ("coq", "type", "group", "index", "child")
@@ -694,14 +780,57 @@ class Fn:
         self.stmts = self.body_slice()
         scan = ast.Module(body=self.stmts, type_ignores=[])
         self.fields = dict(mod.fields(cname)) if cname else {}
+        # batch 5: a field that holds an RSTWriter and is USED as a writer (not only as the base of .title) makes
+        # the function thread the document; the title of that writer then lives in the document
+        parents = {}
+        for n in ast.walk(scan):
+            for ch in ast.iter_child_nodes(n):
+                parents[ch] = n
+        self.world_fields = set()
+        for n in ast.walk(scan):
+            if isinstance(n, ast.Attribute) and isinstance(n.value, ast.Name) and n.value.id == "self" \
+                    and self.fields.get(n.attr) == "writer" and isinstance(n.ctx, ast.Load):
+                par = parents.get(n)
+                if not (isinstance(par, ast.Attribute) and par.attr == "title"):
+                    self.world_fields.add(n.attr)
+            if isinstance(n, ast.Call) and isinstance(n.func, ast.Attribute) and isinstance(n.func.value, ast.Name) \
+                    and n.func.value.id == "self" and n.func.attr in WORLD_METHODS \
+                    and WORLD_METHODS[n.func.attr]["cname"] == cname:
+                self.world_fields.update(WORLD_METHODS[n.func.attr]["world_fields"])
+        # the fields of an object held in a field, when its class comes from a module translated before:
+        # self.<f>.<g> is a variable of the translated function, like self.writer.title
+        if cname:
+            for f_, cls_ in mod.field_class_names(cname).items():
+                src_ = mod.imports.get(cls_)
+                if src_ and src_[0] in MODULES and cls_ in MODULES[src_[0]].classes and f_ in self.fields:
+                    for g_, t_ in MODULES[src_[0]].fields(cls_).items():
+                        if t_ is not None and f"{f_}.{g_}" not in self.fields:
+                            self.fields[f"{f_}.{g_}"] = t_
+        WORLD_TITLE_FIELDS.clear()
+        WORLD_TITLE_FIELDS.update(self.world_fields)
         for f_, t_ in list(self.fields.items()):
-            if t_ == "writer":
+            if t_ == "writer" and f_ not in self.world_fields:
                 self.fields[f_ + ".title"] = "str"     # the title of the RSTWriter held in that field
+        # batch 5: the static class of a loop variable that ranges over a list field / list parameter
+        self.loop_var_types = {}
+        ptypes_ = {a_.arg: mod.annotation(a_.annotation) for a_ in fn.args.args}
+        for n in ast.walk(scan):
+            if isinstance(n, ast.For) and isinstance(n.target, ast.Name):
+                it, t_ = n.iter, None
+                if isinstance(it, ast.Attribute) and isinstance(it.value, ast.Name) and it.value.id == "self":
+                    t_ = self.fields.get(it.attr)
+                elif isinstance(it, ast.Name):
+                    t_ = ptypes_.get(it.id)
+                et = t_[1] if is_list(t_) else None
+                if n.target.id in self.loop_var_types and self.loop_var_types[n.target.id] != et:
+                    et = None
+                self.loop_var_types[n.target.id] = et
         self.field_params = []          # fields read before written (become parameters)
         self.ever_written = []          # fields assigned anywhere so far (python attr names)
         self.loops = []                 # stack of (state coq names, break_allowed)
         self.depth = 0                  # nesting depth in if/for
         self.uses_world = False
+        self.creates_world = False      # the function constructs the top-level writer itself (no document argument)
         self.result_type = None
         self.notes = []
         self.field_types = {}
@@ -752,7 +881,12 @@ class Fn:
             isinstance(n, ast.Call) and isinstance(n.func, ast.Attribute) and isinstance(n.func.value, ast.Name)
             and n.func.value.id == "self" and n.func.attr in METHODS and METHODS[n.func.attr]["has_raise"]
             and METHODS[n.func.attr]["cname"] == cname for n in ast.walk(scan)) or any(
-            isinstance(n, ast.stmt) and may_raise(n) for n in ast.walk(scan))
+            isinstance(n, ast.stmt) and may_raise(n) for n in ast.walk(scan)) or any(
+            self.obj_call_may_raise(n) for n in ast.walk(scan)) or any(
+            isinstance(n, ast.Call) and isinstance(n.func, ast.Attribute) and isinstance(n.func.value, ast.Name)
+            and n.func.value.id == "self" and n.func.attr in WORLD_METHODS
+            and WORLD_METHODS[n.func.attr]["cname"] == cname and WORLD_METHODS[n.func.attr]["has_raise"]
+            for n in ast.walk(scan))
         self.has_return = any(isinstance(n, ast.Return) and n.value is not None for n in ast.walk(scan))
         for n in ast.walk(scan):
             if isinstance(n, (ast.Lambda, ast.FunctionDef, ast.AsyncFunctionDef, ast.ClassDef)) and n is not fn:
@@ -760,6 +894,19 @@ class Fn:
             if isinstance(n, (ast.Global, ast.Nonlocal, ast.With, ast.While, ast.Yield, ast.YieldFrom,
                               ast.Await, ast.Delete, ast.Assert, ast.Import, ast.ImportFrom, ast.NamedExpr)):
                 fail(n, "statement/expression outside the subset")
+
+    def obj_call_may_raise(self, n):
+        """n = v.m(..) for a loop variable v over documentation objects and a translated object method m: can it raise"""
+        if not (isinstance(n, ast.Call) and isinstance(n.func, ast.Attribute) and n.func.attr in OBJ_METHOD_NAMES
+                and isinstance(n.func.value, ast.Name) and n.func.value.id != "self"):
+            return False
+        rt = self.loop_var_types.get(n.func.value.id)
+        if rt == "entry":
+            return True     # the dynamic dispatch: some class's method may raise
+        if rt in PART_ACCESSORS:
+            info = OBJ_METHODS.get(resolve_method(self.mod, PART_ACCESSORS[rt][0], n.func.attr))
+            return bool(info and info["has_raise"])
+        return False
 
     def body_slice(self):
         """the statements to translate: the whole body, or the part selected by the target's options"""
@@ -770,6 +917,33 @@ class Fn:
             if not body or ast.unparse(body[-1]) != o["drop_last"]:
                 fail(self.fn, f"{self.qual} does not end with the statement `{o['drop_last']}`")
             return body[:-1]
+        if "after_stmt" in o:
+            # everything after the one top-level statement that reads exactly like the given one
+            hits = [i for i, s_ in enumerate(body) if ast.unparse(s_) == o["after_stmt"]]
+            if len(hits) != 1 or hits[0] == len(body) - 1:
+                fail(self.fn, f"{self.qual} has not exactly one top-level statement `{o['after_stmt']}` with "
+                              f"statements after it")
+            return body[hits[0] + 1:]
+        if "to_field" in o:
+            # from the first assignment of a local to the last assignment of self.<field>; the results are the
+            # fields assigned in between, which nothing later in the function may assign again
+            def stores_field(s_, names):
+                return any(isinstance(n, ast.Attribute) and isinstance(n.ctx, ast.Store) and isinstance(n.value, ast.Name)
+                           and n.value.id == "self" and n.attr in names for n in ast.walk(s_))
+            starts = [i for i, s_ in enumerate(body) if isinstance(s_, ast.Assign) and len(s_.targets) == 1
+                      and isinstance(s_.targets[0], ast.Name) and s_.targets[0].id == o["from_assign"]]
+            ends = [i for i, s_ in enumerate(body) if stores_field(s_, {o["to_field"]})]
+            if not starts or not ends or ends[-1] < starts[0]:
+                fail(self.fn, f"{self.qual}: no part from the first assignment of {o['from_assign']} to the last "
+                              f"assignment of self.{o['to_field']}")
+            part = body[starts[0]:ends[-1] + 1]
+            assigned = {n.attr for s_ in part for n in ast.walk(s_)
+                        if isinstance(n, ast.Attribute) and isinstance(n.ctx, ast.Store)
+                        and isinstance(n.value, ast.Name) and n.value.id == "self"}
+            for s_ in body[ends[-1] + 1:]:
+                if stores_field(s_, assigned):
+                    fail(s_, f"a field of {sorted(assigned)} is assigned again after the translated part")
+            return part
         if "from_assign" in o:
             starts = [i for i, s_ in enumerate(body) if isinstance(s_, ast.Assign) and len(s_.targets) == 1
                       and isinstance(s_.targets[0], ast.Name) and s_.targets[0].id == o["from_assign"]]
@@ -901,6 +1075,21 @@ class Fn:
                 fail(e, "attribute of a referenced documentation object other than .name")
             lst = self.lookup(ast.copy_location(ast.Name(id=r.type[1], ctx=ast.Load()), e), env)[1]
             return f"py_entry_name (py_deref {lst.coq} {r.coq})", "str"
+        if isinstance(e, ast.Attribute) and isinstance(e.value, ast.Name) and e.value.id in env \
+                and env[e.value.id].type == "innerclass":
+            # an inner class held in a class entry: Model.DocTypes.EClass keeps its name, nothing else
+            if e.attr != "name":
+                fail(e, "attribute of an inner class other than .name (Model.DocTypes.EClass keeps only the names "
+                        "of the inner classes)")
+            return f"py_inner_class_name {env[e.value.id].coq}", "str"
+        if isinstance(e, ast.Attribute) and isinstance(e.value, ast.Name) and e.value.id in env \
+                and env[e.value.id].type in PART_ACCESSORS:
+            # a field of a method / attribute object held in a class entry: the record projection
+            cls, acc = PART_ACCESSORS[env[e.value.id].type]
+            self.check_part_table(e, env[e.value.id].type)
+            if e.attr not in acc:
+                fail(e, f"{cls} has no field {e.attr}")
+            return f"({acc[e.attr][0]} {env[e.value.id].coq})", acc[e.attr][1]
         sf = self.settings_field(e, env)
         if sf is not None:
             # self.<settings field>.<group>.<option>: looked up BY NAME in the one settings argument
@@ -1092,6 +1281,158 @@ class Fn:
         lv = self.documented_var(st, env)
         rhs = f"py_await_update {lv.coq} {paren_arg(a)} ({fe} {paren_arg(x)}) ({fm} {paren_arg(x)})"
         return self.mutate(env, DOCUMENTED, lv, rhs, lv.type, cont)
+
+    def class_module(self, node, cls):
+        """the Module that defines the class cls (this one, or the one it is imported from)"""
+        if cls in self.mod.classes:
+            return self.mod
+        if cls in self.mod.imports and self.mod.imports[cls][0] in MODULES \
+                and cls in MODULES[self.mod.imports[cls][0]].classes:
+            return MODULES[self.mod.imports[cls][0]]
+        fail(node, f"the class {cls} is neither defined in this module nor imported from a translated one")
+
+    def check_part_table(self, node, ptype):
+        """the declared projections of a part type cover exactly the dataclass fields of its class in the source"""
+        cls, acc = PART_ACCESSORS[ptype]
+        src = self.class_module(node, cls).fields(cls)
+        if list(src) != list(acc):
+            fail(node, f"the dataclass fields of {cls} are {list(src)}, its representation has {list(acc)}")
+        for f_, (_, pt) in acc.items():
+            if src[f_] != pt and ("opt", src[f_]) != pt:
+                fail(node, f"field {f_} of {cls} has type {src[f_]} in the source, {pt} in its representation")
+
+    def is_entry_obj_call(self, n, var):
+        return (isinstance(n, ast.Call) and isinstance(n.func, ast.Attribute) and isinstance(n.func.value, ast.Name)
+                and n.func.value.id == var and n.func.attr in OBJ_METHOD_NAMES)
+
+    def obj_method_call(self, st, e, env, cont):
+        """v.m(w) as a statement, for a documentation object v and a method m translated before: one call of the
+        translated method on the fields of v, threading the document"""
+        recv = env[e.func.value.id]
+        mname = e.func.attr
+        if e.keywords or len(e.args) != 1 or isinstance(e.args[0], ast.Starred):
+            fail(st, "call of an object method with other than one positional argument")
+        wx, wt = self.expr(e.args[0], env)
+        if wt != "writer":
+            fail(st, f"object method called with an argument of type {wt} (expected a writer)")
+        if WORLD not in env:
+            fail(st, "call of a rendering method in a function that has no writer")
+        w = env[WORLD].coq
+        if recv.type in PART_ACCESSORS:
+            cls, acc = PART_ACCESSORS[recv.type]
+            self.check_part_table(st, recv.type)
+            key = resolve_method(self.class_module(st, cls), cls, mname)
+            info = OBJ_METHODS.get(key)
+            if info is None:
+                fail(st, f"{cls}.{mname} resolves to {key}, which is not translated (before this function)")
+            if info["out"]:
+                fail(st, f"{key[0]}.{key[1]} assigns fields of its object, which lives inside a class entry")
+            if info["has_raise"]:
+                fail(st, f"{key[0]}.{key[1]} can raise; not supported for objects inside a class entry")
+            args = []
+            for attr, ft in info["field_params"]:
+                if attr not in acc or acc[attr][1] != ft:
+                    fail(st, f"field {attr} of {cls}: type {ft} in {key[0]}.{key[1]}, "
+                             f"{acc.get(attr, (None, None))[1]} in the representation")
+                args.append(f"({acc[attr][0]} {recv.coq})")
+            env2, c = self.bind(env, WORLD, "world")
+            return let(c, " ".join([info["name"], w, paren_arg(wx)] + args), cont(env2))
+        # the dynamic dispatch on a documentation object of a list of entries
+        lp = self.loops[-1] if self.loops else None
+        if not (lp and len(lp) > 3 and lp[3] and lp[3]["var"] == e.func.value.id and self.depth == lp[3]["depth"]):
+            fail(st, "dynamic dispatch outside the body of a loop over the list that holds the object")
+        if not DISPATCH or DISPATCH["method"] != mname:
+            fail(st, f"no generated dispatch for the method {mname}")
+        root = DISPATCH["root"]
+        if self.mod.rel != DISPATCH["rel"] and self.mod.imports.get(root) != (DISPATCH["rel"], root):
+            fail(st, f"{root} is not imported from {DISPATCH['rel']}")
+        env2, c = self.bind(env, WORLD, "world")
+        env3, cv = self.bind(env2, e.func.value.id, "entry")
+        call = f"{DISPATCH['name']} {w} {paren_arg(wx)} {recv.coq}"
+        return (f"match {call} with\n| None => None\n| Some ({c}, {cv}) =>\n"
+                f"{ind(paren(cont(env3)), 4)}\nend")
+
+    def for_obj_stmt(self, st, env, xs, cont):
+        """for v in XS: .. v.m(w) ..   for a list XS of documentation objects and the dynamically dispatched m:
+        the body may replace the object v (the methods mutate their object) and may raise"""
+        lv = st.target.id
+        lkey, lvar = self.lookup(st.iter, env)
+        if self.loops or self.has_return:
+            fail(st, "a loop with dynamic dispatch nested in a loop / in a function with return statements")
+        if lvar.group is not None and len(lvar.group) > 1:
+            fail(st, f"the list {lkey} has aliases")
+        calls = [n for s2 in st.body for n in ast.walk(s2) if self.is_entry_obj_call(n, lv)]
+        tops = [s2 for s2 in st.body if isinstance(s2, ast.Expr) and self.is_entry_obj_call(s2.value, lv)]
+        if len(calls) != len(tops):
+            fail(st, "dynamic dispatch that is not a statement of the loop body itself")
+        if has_break(st.body) or any(isinstance(n, (ast.Return, ast.Continue, ast.Raise))
+                                     for s2 in st.body for n in ast.walk(s2)):
+            fail(st, "break / continue / return / raise in a loop with dynamic dispatch")
+        assigned = self.expand_aliases(target_names(st.body), env, {lv: "entry"})
+        if lv in assigned or lkey in assigned:
+            fail(st, f"{lv} or {lkey} is assigned in the loop body")
+        self.note_param_mutation(st, lkey)
+        env = self.materialize(env, assigned)
+        state = [n for n in assigned if n in env]
+        if WORLD not in state:
+            fail(st, "loop with dynamic dispatch in a function that has no writer")
+        env_body, cv = self.bind(env, lv, "entry")
+
+        def kend(e):
+            return f"Some ({tup_expr([e[n].coq for n in state])}, {e[lv].coq})"
+        self.loops.append((state, False, False, {"var": lv, "depth": self.depth + 1}))
+        self.depth += 1
+        try:
+            body = self.block(st.body, env_body, kend)
+        finally:
+            self.loops.pop()
+            self.depth -= 1
+        names_in = [env[n].coq for n in state]
+        env2, cl = self.bind(dict(env), lkey, lvar.type, lvar.group)
+        fun = f"(fun {tup_pat(names_in)} {cv} =>\n{ind(body, 3)})"
+        rhs = f"py_for_obj_raise {paren_arg(xs)}\n{ind(fun)}\n{ind(tup_expr(names_in))}"
+        return (f"match\n{ind(rhs)}\nwith\n| None => None\n| Some ({tup_expr(names_in)}, {cl}) =>\n"
+                f"{ind(paren(cont(env2)), 4)}\nend")
+
+    def world_method_call(self, st, e, env, cont):
+        """self.m(args) as a statement, for a method m of the same class, translated before, that threads the
+        document through a writer field: the document, the list arguments it mutates in place and the fields it
+        assigns are rebound to its results"""
+        info = WORLD_METHODS[e.func.attr]
+        if e.keywords or any(isinstance(a, ast.Starred) for a in e.args) or len(e.args) != len(info["params"]):
+            fail(st, f"call of {e.func.attr} with keywords / starred / a different number of arguments")
+        if self.loops or WORLD not in env:
+            fail(st, f"call of {e.func.attr} inside a loop / in a function without the document")
+        texts, rebind = [], []
+        for a, (pn, pt, _) in zip(e.args, info["params"]):
+            if pn in info["out_params"]:
+                # mutated in place by the callee: must be a variable here, which then holds the new value
+                key, v = self.lookup(a, env)
+                if v.type != pt or (v.group is not None and len(v.group) > 1):
+                    fail(a, f"argument {pn} of {e.func.attr}: a list of type {v.type} (expected {pt}) or with aliases")
+                self.note_param_mutation(st, key)
+                texts.append(v.coq)
+                rebind.append((key, pt))
+            else:
+                texts.append(paren_arg(self.as_type(a, env, pt, f"argument {pn} of {e.func.attr}")))
+        for f_, ft in info["field_params"]:
+            v = env["self." + f_] if "self." + f_ in env else self.read_field(st, env, "self." + f_)
+            if v.type != ft:
+                fail(e, f"field self.{f_} has type {v.type} here and {ft} in {e.func.attr}")
+            texts.append(v.coq)
+        call = " ".join([info["name"], env[WORLD].coq] + texts)
+        envx, cw = self.bind(env, WORLD, "world")
+        names = [cw]
+        for key, pt in rebind:
+            envx, c = self.bind(envx, key, pt)
+            names.append(c)
+        for f_, ft in info["out"]:
+            envx, c = self.bind(envx, "self." + f_, ft)
+            names.append(c)
+        if info["has_raise"]:
+            return (f"match {call} with\n| None => None\n| Some {paren_arg(tup_expr(names))} =>\n"
+                    f"{ind(paren(cont(envx)), 4)}\nend")
+        return let(tup_pat(names), call, cont(envx))
 
     def method_call(self, st, e, env, cont):
         """self.m(args) as a statement, for a method m translated before: its result is bound to the
@@ -1507,6 +1848,20 @@ class Fn:
                         fail(e, f"argument of type {t}, expected {want}")
                     args.append(paren_arg(x))
                 return f"{f.id} " + " ".join(args), sig[1]
+            if f.id in self.mod.imports and f.id not in env and f.id not in self.mod.functions \
+                    and f.id not in self.mod.classes and f.id in EMITTED \
+                    and EMITTED_REL.get(f.id) == self.mod.imports[f.id][0]:
+                # from .m import f  for a module-level function f of m translated before
+                sig = EMITTED[f.id]
+                if len(sig[0]) != len(e.args) or any(isinstance(a, ast.Starred) for a in e.args):
+                    fail(e, "call with a different number of arguments")
+                args = []
+                for a, want in zip(e.args, sig[0]):
+                    x, t = self.expr(a, env)
+                    if unify(t, want) != want:
+                        fail(e, f"argument of type {t}, expected {want}")
+                    args.append(paren_arg(self.coerce(x, t, want)))
+                return f"{f.id} " + " ".join(args), sig[1]
             fail(e, "call of a function outside the subset")
         if isinstance(f, ast.Attribute) and isinstance(f.value, ast.Name) and f.value.id == "textwrap" \
                 and f.attr == "dedent" and "textwrap" not in env:
@@ -1759,6 +2114,11 @@ class Fn:
                 fail(st, "multiple assignment targets")
             return self.assign(st, st.targets[0], st.value, env, cont)
 
+        if isinstance(st, ast.AnnAssign) and st.value is not None and st.simple == 0 \
+                and self.field_key(st.target) is not None:
+            # self.f: T = E   (the annotation declares the field, see Module.fields; the statement is self.f = E)
+            return self.assign(st, st.target, st.value, env, cont)
+
         if isinstance(st, ast.AugAssign):
             if not isinstance(st.op, ast.Add):
                 fail(st, "augmented assignment other than +=")
@@ -1782,6 +2142,11 @@ class Fn:
                 if returns_handle:
                     return let(f"'({c}, _)", text, cont(env2))
                 return let(c, text, cont(env2))
+            if isinstance(e, ast.Call) and isinstance(e.func, ast.Attribute) and isinstance(e.func.value, ast.Name) \
+                    and e.func.value.id in env and e.func.value.id != "self" \
+                    and (env[e.func.value.id].type in PART_ACCESSORS or env[e.func.value.id].type == "entry") \
+                    and e.func.attr in OBJ_METHOD_NAMES:
+                return self.obj_method_call(st, e, env, cont)
             if isinstance(e, ast.Call) and isinstance(e.func, ast.Attribute) and e.func.attr in LOG_METHODS \
                     and isinstance(e.func.value, ast.Attribute) and isinstance(e.func.value.value, ast.Name) \
                     and e.func.value.value.id == "self" and e.func.value.attr == "logger":
@@ -1803,6 +2168,10 @@ class Fn:
                     return let(c2, f"py_shift_refs {envx[todo[0]].coq}", shifted(envy, todo[1:]))
                 return self.mutate(env, key, v, f"py_insert_front {v.coq} {paren_arg(x)}",
                                    unify(v.type, ("list", tx)), lambda envx: shifted(envx, refs))
+            if isinstance(e, ast.Call) and isinstance(e.func, ast.Attribute) and isinstance(e.func.value, ast.Name) \
+                    and e.func.value.id == "self" and self.cname and e.func.attr in WORLD_METHODS \
+                    and WORLD_METHODS[e.func.attr]["cname"] == self.cname:
+                return self.world_method_call(st, e, env, cont)
             if isinstance(e, ast.Call) and isinstance(e.func, ast.Attribute) and isinstance(e.func.value, ast.Name) \
                     and e.func.value.id == "self" and self.cname and e.func.attr in METHODS \
                     and METHODS[e.func.attr]["cname"] == self.cname:
@@ -1913,6 +2282,21 @@ class Fn:
                 fail(st, "return inside nested loops / a loop with break")
             if st.value is None:
                 res = self.exit_value(env, st)
+            elif WORLD in env and self.cname:
+                # a method that threads the document and returns a value: the document, the value, and the
+                # fields it assigned (a field not assigned on this path has its incoming value)
+                if self.loops or self.out_params:
+                    fail(st, "return of a value inside a loop / with mutated list parameters in a function that "
+                             "threads the document")
+                x, t = self.expr(st.value, env)
+                fields = list(self.out_fields) + [f for f in self.mutated_params if f not in self.out_fields]
+                envm = self.materialize(env, ["self." + f for f in fields])
+                outs = [(envm[WORLD].coq, "world"), (x, t)] + [(envm["self." + f].coq, envm["self." + f].type)
+                                                               for f in fields]
+                self.set_result(st, ("tuple", [o_[1] for o_ in outs]))
+                self.result_fields = [envm[WORLD].coq, "<the returned value>"] + [o_[0] for o_ in outs[2:]]
+                tx = tup_expr([o_[0] for o_ in outs])
+                res = f"Some {paren_arg(tx)}" if self.has_raise else tx
             else:
                 x, t = self.expr(st.value, env)
                 self.set_result(st, t)
@@ -2052,7 +2436,7 @@ class Fn:
         fields = list(self.out_fields) + [f for f in self.mutated_params if f not in self.out_fields]
         env = self.materialize(env, ["self." + f for f in fields])
         outs = []
-        if self.uses_world:
+        if self.uses_world or (self.creates_world and WORLD in env):
             outs.append((env[WORLD].coq, "world"))
         for pk in self.out_params:
             outs.append((env[pk].coq, env[pk].type))
@@ -2071,7 +2455,9 @@ class Fn:
         t = outs[0][1] if len(outs) == 1 else ("tuple", [x[1] for x in outs])
         self.set_result(node, t)
         self.result_fields = [o[0] for o in outs]
-        self.result_attrs = None if (self.uses_world or self.out_params or self.opts.get("result")) else \
+        self.result_out_attrs = None if self.opts.get("result") else [(f, env["self." + f].type) for f in fields]
+        self.result_attrs = None if (self.uses_world or self.creates_world or self.out_params
+                                     or self.opts.get("result")) else \
             [(f, env["self." + f].type) for f in fields]
         x = tup_expr([o[0] for o in outs])
         return f"Some {paren_arg(x)}" if self.has_raise else x
@@ -2100,6 +2486,39 @@ class Fn:
         return let(c, rhs, after(env2, others))
 
     def assign(self, st, tgt, value, env, cont):
+        if isinstance(tgt, ast.Attribute) and tgt.attr == "title" and isinstance(tgt.value, ast.Attribute) \
+                and isinstance(tgt.value.value, ast.Name) and tgt.value.value.id == "self" \
+                and tgt.value.attr in self.world_fields:
+            # self.<writer field>.title = E  in a function that threads the document: the title setter of that writer
+            x, tx = self.expr(value, env)
+            if tx != "str":
+                fail(st, f"title assigned a value of type {tx}")
+            h, _ = self.expr(tgt.value, env)
+            w = env[WORLD].coq
+            env2, c = self.bind(env, WORLD, "world")
+            return let(c, f"py_w_set_title {w} {h} {paren_arg(x)}", cont(env2))
+        if isinstance(value, ast.Call) and isinstance(value.func, ast.Name) and value.func.id == "RSTWriter" \
+                and "RSTWriter" not in env and self.field_key(tgt) is not None and self.cname \
+                and self.fields.get(self.field_key(tgt)[5:]) == "writer":
+            # self.f = RSTWriter(title, settings=S): the function CREATES the document; the new writer is its
+            # top-level writer (section_level and indent keep their defaults 0)
+            if self.mod.imports.get("RSTWriter", (None,))[0] != WRITER_FILE:
+                fail(st, f"RSTWriter is not imported from {WRITER_FILE}")
+            kws = {k_.arg: k_.value for k_ in value.keywords}
+            if len(value.args) != 1 or isinstance(value.args[0], ast.Starred) or set(kws) - {"settings"}:
+                fail(st, "RSTWriter(..) with other than one positional argument and the keyword settings")
+            if "settings" in kws and not (isinstance(kws["settings"], ast.Name)
+                                          and kws["settings"].id in self.settings_params):
+                fail(st, "RSTWriter(.., settings=S) where S is not the Settings parameter of the function")
+            if WORLD in env or self.loops or self.depth > 0:
+                fail(st, "construction of a writer in a function that already has a document / inside if or for")
+            x, tx = self.expr(value.args[0], env)
+            if tx != "str":
+                fail(st, f"RSTWriter(title) with a title of type {tx}")
+            self.creates_world = True
+            env2, cw = self.bind(env, WORLD, "world")
+            env3, c = self.bind(env2, self.field_key(tgt), "writer")
+            return let(cw, f"py_w_new {paren_arg(x)}", let(c, "py_w_top", cont(env3)))
         if isinstance(tgt, ast.Subscript):
             if not is_minus_one(tgt.slice):
                 fail(st, "subscript assignment other than xs[-1] = v")
@@ -2321,6 +2740,15 @@ class Fn:
             # narrowing: in the branch where X is not None, X is the value itself
             key, v, is_not = nt
             some_body, none_body = (st.body, st.orelse) if is_not else (st.orelse, st.body)
+            if not is_not and not st.orelse and len(st.body) == 1 and isinstance(st.body[0], ast.Assign) \
+                    and len(st.body[0].targets) == 1 and isinstance(st.body[0].targets[0], ast.Name) \
+                    and st.body[0].targets[0].id == key and isinstance(st.test.left, ast.Name):
+                # if X is None: X = E    is    X = E if X is None else X
+                ife = ast.IfExp(test=st.test, body=st.body[0].value, orelse=ast.Name(id=key, ctx=ast.Load()))
+                asg = ast.Assign(targets=[ast.Name(id=key, ctx=ast.Store())], value=ife)
+                for n_ in (ife, ife.orelse, asg, asg.targets[0]):
+                    ast.copy_location(n_, st)
+                return self.block([asg] + rest, env, k)
             if key in target_names(st.body) + target_names(st.orelse):
                 fail(st, f"{key} is assigned in a branch of a test against None")
             env_a = dict(env)
@@ -2394,6 +2822,8 @@ class Fn:
         xs, te = self.iterable(st.iter, env)
         if lv != "_" and lv in env:
             fail(st, f"loop variable {lv} overwrites a local variable")
+        if te == "entry" and any(self.is_entry_obj_call(n, lv) for s2 in st.body for n in ast.walk(s2)):
+            return self.for_obj_stmt(st, env, xs, cont)
         assigned = self.expand_aliases(target_names(st.body), env, {lv: te})
         if lv in assigned:
             fail(st, f"loop variable {lv} is assigned in the loop body")
@@ -2470,7 +2900,15 @@ class Fn:
         a = fn.args
         if a.vararg or a.kwarg or a.kwonlyargs or a.posonlyargs:
             fail(fn, "parameter list with varargs / keyword-only parameters")
-        if any(not isinstance(d, ast.Constant) for d in a.defaults):
+        for p_, d in zip(a.args[len(a.args) - len(a.defaults):], a.defaults):
+            if isinstance(d, ast.Constant):
+                continue
+            # settings: Settings = Settings()  -- the Settings parameter is never evaluated by the translation
+            # (its options are arguments of the translated function), so its default does not matter
+            if isinstance(d, ast.Call) and isinstance(d.func, ast.Name) and d.func.id in SETTINGS_CLASSES \
+                    and not d.args and not d.keywords and isinstance(p_.annotation, ast.Name) \
+                    and p_.annotation.id == d.func.id:
+                continue
             fail(fn, "parameter default that is not a constant")
         # (a parameter with a constant default is an ordinary explicit argument of the translated function;
         #  a call inside the subset passes it explicitly or the translator inserts the constant)
@@ -2487,6 +2925,11 @@ class Fn:
             self.cname = None       # a static method or module-level function has no self
             self.fields = {}
         env = {}
+        WORLD_TITLE_FIELDS.clear()
+        WORLD_TITLE_FIELDS.update(self.world_fields if is_method else ())
+        if is_method and self.world_fields:
+            env, _ = self.bind(env, WORLD, "world")
+            self.uses_world = True
         explicit = []
         defaults = dict(zip([p_.arg for p_ in a.args][len(a.args) - len(a.defaults):], a.defaults))
         self.param_info = []
@@ -2509,6 +2952,9 @@ class Fn:
                 continue
             if t is None:
                 fail(p, "parameter without a type annotation of the subset")
+            dflt_ = defaults.get(p.arg)
+            if isinstance(dflt_, ast.Constant) and dflt_.value is None and t == "str":
+                t = ("opt", t)      # x: str = None  is an Optional[str], whatever the annotation says
             if t == "writer" and WORLD not in env:
                 env, _ = self.bind(env, WORLD, "world")
                 self.uses_world = True
@@ -2552,6 +2998,48 @@ class Fn:
         return name, text, [t for _, t in binders], self.result_type
 
 
+def class_mro(mod, cname):
+    """C3 linearization of a class over the classes of its module (bases outside the module -- ABC, Enum, object --
+    carry no methods of interest and are left out)"""
+    c = mod.classes[cname]
+    bases = [b.id for b in c.bases if isinstance(b, ast.Name) and b.id in mod.classes]
+    for b in c.bases:
+        if not isinstance(b, ast.Name):
+            fail(b, f"base class expression of {cname}")
+    seqs = [class_mro(mod, b) for b in bases] + [list(bases)]
+    out = [cname]
+    while any(seqs):
+        seqs = [q for q in seqs if q]
+        for q in seqs:
+            head = q[0]
+            if not any(head in q2[1:] for q2 in seqs):
+                break
+        else:
+            fail(c, f"inconsistent method resolution order for {cname}")
+        out.append(head)
+        seqs = [[x for x in q if x != head] for q in seqs]
+    return out
+
+
+def resolve_method(mod, cname, mname):
+    """(defining class, method name) that cname.mname resolves to by the MRO, or None"""
+    if cname not in mod.classes:
+        return None
+    for k in class_mro(mod, cname):
+        for m in mod.classes[k].body:
+            if isinstance(m, ast.FunctionDef) and m.name == mname:
+                return (k, mname)
+    return None
+
+
+def is_abstract_method(mod, key):
+    cname, mname = key
+    for m in mod.classes[cname].body:
+        if isinstance(m, ast.FunctionDef) and m.name == mname:
+            return any(isinstance(d, ast.Name) and d.id == "abstractmethod" for d in m.decorator_list)
+    return False
+
+
 def dotted_name(f):
     """a.b.c for an attribute chain on a plain name, else None"""
     parts = []
@@ -2593,6 +3081,12 @@ def balanced(x):
     return d == 0
 
 
+WORLD_TITLE_FIELDS = set()      # writer fields of the function being translated whose title lives in the world
+OBJ_METHODS = {}        # (class, method) -> info: translated methods of documentation objects that take a writer
+OBJ_METHOD_NAMES = set()
+DISPATCH = {}           # the generated dynamic dispatch: name, method, source file
+WORLD_METHODS = {}      # methods that thread the document through a writer FIELD, callable as self.m(..): name -> info
+EMITTED_REL = {}        # module-level function -> the source file it was translated from
 BASE_LISTENER_NAMES = None     # method names of the generated parser listener (base class of the aggregator)
 EMITTED = {}    # module-level functions already translated: name -> ([param types], result type)
 METHODS = {}    # methods (without return value) already translated, callable as self.m(..): method name -> info
@@ -2757,6 +3251,52 @@ HEADER = """(* GENERATED by translators/py2coq.py from the Python source of CMin
                                               NOT derived from the source)
      A statement that can raise without a raise statement (pop, a call of a method that can raise, the reflective call, the
      __dict__ test) ends its block like raise does: each branch of an enclosing if is followed by its own copy of the rest.
+   Batch 5 (the rendering loop: ClassDocumentation.process, the dynamic dispatch, the whole Documenter.process_docs;
+   proved equal to the model in Proofs/SourceMatch3.v):
+     a field / element annotated MethodDocumentation / AttributeDocumentation      a DocTypes.method / DocTypes.attribute ;
+                                              x.f for such an x is the record projection (DocTypes.m_name x ...); the
+                                              projections must cover exactly the dataclass fields the source declares
+     ClassDocumentation.inner_classes         list str: DocTypes.EClass keeps the NAMES of the inner classes; for an element c,
+                                              c.name is py_inner_class_name c (the identity) and every other attribute is rejected
+     from .m import f ; f(a, ..)              the function f of src/cminx/m.py translated before (interpreted_text)
+     for v in XS: .. v.m(w) ..                for a list field XS of method / attribute objects and a method m translated before
+                                              (resolved by the MRO of v's class):  let world := C_m world w (proj1 v) (proj2 v) .. in
+                                              inside the ordinary py_for; m must neither assign fields of v nor raise
+     w.bulleted_list( *[E for v in XS])       py_w_bulleted_list world w (py_listcomp (fun v => E) XS)     (a starred list)
+     x.m(w) for x : DocumentationType         dispatch_<m> world w x : option (wstate * DocTypes.entry), GENERATED from the class
+                                              statements of documentation_types.py: one arm per concrete subclass (a class whose m
+                                              does not resolve to an @abstractmethod), pattern = the entry constructor of the class
+                                              (slot i = dataclass field i), calling the method that the class resolves to by its MRO
+                                              (C3 over the classes of the module), which must be translated.  A concrete subclass
+                                              without representation stops the translator, except the declared part classes
+                                              (Method/AttributeDocumentation) and DanglingDoccomment, for which it checks that
+                                              aggregator.py, documenter.py and __init__.py never construct one.  Result: None when
+                                              the method raises; else the new document and the object after the call (the fields the
+                                              method assigns -- FunctionDocumentation.process appends to self.params -- replaced).
+                                              dispatch_<m>_hierarchy records class, MRO, resolved class and kind (pinned in SourceMatch3.v)
+     for v in XS: v.m(w)   (v an entry)       match py_for_obj_raise XS (fun st v => match dispatch_m world w v with None => None
+                                              | Some (world, v) => Some (st, v) end) st with None => None | Some (st, XS) => .. end :
+                                              XS (a plain list variable) afterwards holds the objects as their methods left them; the
+                                              dispatched call must be a statement of the loop body itself, the loop not nested
+     self.writer used as a writer             (passed to a method, not only the base of .title): the function threads `world`, the
+                                              field is the handle argument self_writer, and
+     self.writer.title = E                    let world := py_w_set_title world self_writer E in ...   (the title-setter step of the
+                                              writer state machine) -- instead of the str variable self_writer_title above
+   Batch 5, part 3 (the glue of Documenter: the end of process(), the writer construction of __init__):
+     self.m(xs) for a method m of the same     match C_m world xs (fields m reads) with None => None | Some (world, xs, fields m assigns) => ..
+     class that threads the document          xs, a list m mutates in place, must be a variable and is rebound (self.process_docs)
+     self.f.g  for a field f whose class is   a variable self_f_g of the translated function (argument, and result when assigned /
+     imported from a module translated before mutated), typed by that class's own field g  (self.aggregator.documented)
+     return E  in a method that threads       the tuple  (world, E, fields assigned)
+     the document
+     x: str = None  (parameter)               x : option str ;  if x is None: x = E  is  x = E if x is None else x
+     settings: Settings = Settings()          the Settings parameter is never evaluated (its options are arguments), nor is its default
+     self.f: T = E                            self.f = E   (the annotation declares the field)
+     self.f = RSTWriter(t, settings=S)        let world := py_w_new t in let self_f := py_w_top in ..  : the function CREATES the
+                                              document (no document argument; `world` is its first result); S must be the Settings
+                                              parameter; only at the top level of a function that has no document yet
+     a target may select the statements after a given top-level statement, or from the first assignment of a local to the
+     last assignment of a field (the fields assigned in between must not be assigned again later in the function)
    Abstracted values: the pure library calls os.path.isdir / os.path.relpath / os.path.basename applied to plain
    parameters that are never assigned, and the options settings.<group>.<option> of a parameter annotated Settings
    (typed by the dataclasses of config.py; a field whose default is None is Optional) are ARGUMENTS of the translated
@@ -2821,6 +3361,155 @@ def load_listener_names(repo):
                                for m in n.body if isinstance(m, ast.FunctionDef)]
 
 
+MODULES = {}    # source file -> Module, for the files translated so far
+
+
+def emit_dispatch(mod, repo):
+    """The dynamic dispatch x.<method>(writer) for x annotated with the root class, as a function over
+    Model.DocTypes.entry: one arm per CONCRETE subclass the source declares, calling the method that the class
+    resolves to by its MRO.  Everything is read from the class statements of the module; the only declared
+    knowledge is how a class is a constructor of DocTypes.entry (ENTRY_CONSTRUCTORS*, slot i = dataclass field i)."""
+    root, mname, _ = DISPATCH_ROOT
+    if root not in mod.classes:
+        raise Unsupported(f"{mod.rel}: the class {root} is not defined")
+    rootdef = mod.classes[root]
+    tables = dict(ENTRY_CONSTRUCTORS)
+    tables.update(ENTRY_CONSTRUCTORS_4)
+    name = "dispatch_" + mname
+    lines = []
+    comment = [f"(* {mod.rel}: the dynamic dispatch  x.{mname}(writer)  for x : {root}  (class {root}, line "
+               f"{rootdef.lineno}).",
+               f"   One arm per concrete subclass, in source order; class (its MRO) -> the method it resolves to:"]
+    arms = []
+    seen = set()
+    uses_vartype = False
+    hierarchy = []      # (class, its MRO, the class whose method it resolves to, kind)
+    for cname, cdef in mod.classes.items():
+        if cname in mod.enums:
+            continue
+        mro = class_mro(mod, cname)
+        if root not in mro:
+            continue
+        seen.add(cname)
+        key = resolve_method(mod, cname, mname)
+        if key is None:
+            fail(cdef, f"{cname} has no method {mname}")
+        how = f"     {cname} ({' < '.join(mro)}) -> {key[0]}.{key[1]}"
+        if is_abstract_method(mod, key):
+            if cname in tables or cname in NON_ENTRY_CLASSES:
+                fail(cdef, f"{cname}.{mname} resolves to the abstract {key[0]}.{key[1]}, but {cname} is "
+                           f"declared as a concrete documentation class")
+            comment.append(how + "  [abstract: no instances]")
+            hierarchy.append((cname, mro, key[0], "abstract"))
+            continue
+        if cname in NON_ENTRY_CLASSES:
+            why = NON_ENTRY_CLASSES[cname]
+            if why == "part":
+                if cname not in PART_CLASS_TYPES:
+                    fail(cdef, f"{cname} is declared a part of a class entry but has no part type")
+                comment.append(how + f"  [not an entry: lives inside a class entry as DocTypes.{PART_CLASS_TYPES[cname]}]")
+            else:
+                for prel in PRODUCER_FILES:
+                    ppath = repo / prel
+                    if not ppath.is_file():
+                        raise Unsupported(f"{prel}: source file not found")
+                    for n in ast.walk(ast.parse(ppath.read_text(encoding="utf-8"))):
+                        if isinstance(n, ast.Call) and ((isinstance(n.func, ast.Name) and n.func.id == cname) or
+                                                        (isinstance(n.func, ast.Attribute) and n.func.attr == cname)):
+                            raise Unsupported(f"{prel}:{n.lineno}: {cname} is constructed here, but it has no "
+                                              f"representation in Model.DocTypes.entry")
+                comment.append(how + f"  [not an entry: never constructed in {', '.join(PRODUCER_FILES)} (checked)]")
+            hierarchy.append((cname, mro, key[0], why))
+            continue
+        if cname not in tables:
+            fail(cdef, f"the concrete subclass {cname} of {root} has no representation in Model.DocTypes.entry "
+                       f"(its {mname} resolves to {key[0]}.{key[1]})")
+        info = OBJ_METHODS.get(key)
+        if info is None:
+            fail(cdef, f"{cname}.{mname} resolves to {key[0]}.{key[1]}, which is not translated")
+        comment.append(how)
+        hierarchy.append((cname, mro, key[0], "entry"))
+        head, _, slots = tables[cname]
+        src = list(mod.fields(cname).items())
+        if len(src) != len(slots):
+            fail(cdef, f"{cname} declares the fields {[f_ for f_, _ in src]}, its representation has {len(slots)} slots")
+        natural = {"str": "str", "opt": ("opt", "str"), "liststr": ("list", "str"), "bool": "bool"}
+        binders, slot_of = [], {}
+        for (fname, ftype), slot in zip(src, slots):
+            slot_of[fname] = (slot, ftype)
+            if slot[0] != "const":
+                binders.append("self_" + fname)
+        pattern = " ".join([head] + binders)
+
+        def arg_for(attr, want):
+            if attr not in slot_of:
+                fail(cdef, f"{key[0]}.{key[1]} reads the field {attr}, which {cname} does not declare")
+            slot, ftype = slot_of[attr]
+            kind = slot[0]
+            if kind == "const":
+                if isinstance(want, tuple) and want[0] == "union":
+                    return f"(inr {paren_arg(pystr(slot[2]))})", False
+                if want == "str":
+                    return paren_arg(pystr(slot[2])), False
+                fail(cdef, f"field {attr} of {cname}: the constant {slot[2]!r} as a value of type {want}")
+            if kind == "vartype":
+                if want != ("union", "VarType"):
+                    fail(cdef, f"field {attr} of {cname}: a DocTypes.vartype as a value of type {want}")
+                return f"(inl (VarType_of_model self_{attr}))", False
+            nat = natural.get(kind, ftype)
+            if ftype is not None and kind in natural and ftype != nat and ("opt", ftype) != nat:
+                fail(cdef, f"field {attr} of {cname} is annotated {ftype}, its representation is {nat}")
+            if want == nat:
+                return "self_" + attr, True
+            if want == ("opt", nat):
+                return f"(Some self_{attr})", False
+            fail(cdef, f"field {attr} of {cname}: representation of type {nat}, {key[0]}.{key[1]} expects {want}")
+        args = []
+        for attr, want in info["field_params"]:
+            a_, _ = arg_for(attr, want)
+            uses_vartype = uses_vartype or "VarType_of_model" in a_
+            args.append(a_)
+        outs = [WORLD]
+        for attr, t_ in info["out"]:
+            a_, plain = arg_for(attr, t_)
+            if not plain:
+                fail(cdef, f"{key[0]}.{key[1]} assigns the field {attr}, which has no plain slot in the entry")
+            outs.append(a_)
+        call = " ".join([info["name"], WORLD, "writer"] + args)
+        rebuilt = f"Some ({WORLD}, {pattern})"
+        if info["has_raise"]:
+            body = (f"match {call} with\n| None => None\n| Some {paren_arg(tup_expr(outs))} => {rebuilt}\nend")
+        else:
+            body = let(tup_pat(outs), call, rebuilt)
+        arms.append(f"  | {pattern} =>\n{ind(body, 6)}")
+    for cname in list(tables) + list(NON_ENTRY_CLASSES):
+        if cname not in seen:
+            raise Unsupported(f"{mod.rel}: {cname} is declared a documentation class but is not a subclass of "
+                              f"{root} in the source")
+    comment.append(f"   The result is None when the method raises, else the new document and the object after the call")
+    comment.append(f"   (a method that assigns fields of its object changes the entry). *)")
+    if uses_vartype:
+        if "VarType" not in mod.enums or sorted(mod.enums["VarType"]) != sorted(VARTYPES):
+            raise Unsupported(f"{mod.rel}: the members of VarType are not {sorted(VARTYPES)}")
+        lines.append("(* Model.DocTypes.vartype as the Enum class VarType *)")
+        lines.append("Definition VarType_of_model (t : DocTypes.vartype) : VarType :=\n  match t with\n"
+                     + "\n".join(f"  | {VARTYPES[m_]} => VarType_{m_}" for m_ in mod.enums["VarType"]) + "\n  end.")
+        GLOBAL_NAMES.add("VarType_of_model")
+    lines.append("\n".join(comment))
+    lines.append(f"Definition {name} ({WORLD} : wstate) (writer : handle) (obj : DocTypes.entry) "
+                 f": option (wstate * DocTypes.entry) :=\n  match obj with\n" + "\n".join(arms) + "\n  end.")
+    rows = ["  (" + pystr(c_) + ", ([" + "; ".join(pystr(x_) for x_ in m_) + "], (" + pystr(r_) + ", " + pystr(k_) + ")))"
+            for c_, m_, r_, k_ in hierarchy]
+    lines.append(f"(* the class hierarchy below {root} as read from the source: class, its method resolution order (within "
+                 f"the module), the class whose {mname} it resolves to, and how the dispatch treats it *)\n"
+                 f"Definition {name}_hierarchy : list (str * (list str * (str * str))) :=\n  [\n  "
+                 + ";\n  ".join(rows) + "\n  ].")
+    GLOBAL_NAMES.add(name)
+    GLOBAL_NAMES.add(name + "_hierarchy")
+    DISPATCH.update({"name": name, "method": mname, "root": root, "rel": mod.rel})
+    return "\n".join(lines)
+
+
 def generate(repo):
     load_settings_classes(repo)
     load_listener_names(repo)
@@ -2832,6 +3521,7 @@ def generate(repo):
             raise Unsupported(f"{rel}: source file not found")
         src = path.read_text(encoding="utf-8")
         mod = Module(rel, ast.parse(src))
+        MODULES[rel] = mod
         lines = src.split("\n")
         out.append(f"(* ======== {rel} ======== *)")
         for en, members in mod.enums.items():
@@ -2862,6 +3552,24 @@ def generate(repo):
             GLOBAL_NAMES.add(name)
             if f.cname is None and not f.uses_world:
                 EMITTED[name] = (ptypes, rtype)
+                EMITTED_REL[name] = rel
+            if f.cname is not None and f.uses_world and not opts and not f.abstract_params \
+                    and not f.settings_params and not f.opaque_params and not f.world_fields \
+                    and [t_ for _, t_, _ in f.param_info] == ["writer"] \
+                    and getattr(f, "result_out_attrs", None) is not None:
+                # a method of a documentation object that takes the writer: callable as v.m(w) later on
+                OBJ_METHODS[(f.cname, fn.name)] = {
+                    "name": name, "has_raise": f.has_raise, "out": f.result_out_attrs,
+                    "field_params": [(a_, f.field_types[a_]) for a_ in f.fields if a_ in f.field_params]}
+                OBJ_METHOD_NAMES.add(fn.name)
+            if f.cname is not None and f.uses_world and f.world_fields and set(opts) <= {"name"} \
+                    and not f.abstract_params and not f.settings_params and not f.opaque_params \
+                    and not f.has_return and getattr(f, "result_out_attrs", None) is not None:
+                # a method that threads the document through a writer field: callable as self.m(..) later on
+                WORLD_METHODS[fn.name] = {
+                    "cname": f.cname, "name": name, "params": f.param_info, "out_params": list(f.out_params),
+                    "world_fields": set(f.world_fields), "has_raise": f.has_raise, "out": f.result_out_attrs,
+                    "field_params": [(a_, f.field_types[a_]) for a_ in f.fields if a_ in f.field_params]}
             if f.cname is not None and getattr(f, "result_attrs", None) and not f.abstract_params \
                     and not f.settings_params and not f.opaque_params and not opts:
                 METHODS[fn.name] = {"cname": f.cname, "name": name, "params": f.param_info,
@@ -2875,7 +3583,21 @@ def generate(repo):
             if "drop_last" in opts:
                 comment.append("   translated: the body without its final statement  "
                                + " ".join(opts["drop_last"].split()))
-            if "from_assign" in opts:
+            if set(opts) == {"name"}:
+                comment.append(f"   translated: the WHOLE method, under the name {opts['name']}")
+            for wf in sorted(f.world_fields):
+                comment.append(f"   self.{wf} is used as a writer: the function threads the RST document `world`; "
+                               f"self_{wf} is the handle of that writer, and its title lives in the document")
+            if "after_stmt" in opts:
+                comment.append(f"   translated: lines {f.stmts[0].lineno}-{f.stmts[-1].end_lineno}, the statements after  "
+                               f"{opts['after_stmt']}")
+            if "to_field" in opts:
+                comment.append(f"   translated: lines {f.stmts[0].lineno}-{f.stmts[-1].end_lineno}, from the first "
+                               f"assignment of {opts['from_assign']} to the last one of self.{opts['to_field']}; the "
+                               f"fields assigned there are not assigned again in the function")
+            if f.creates_world:
+                comment.append("   the function constructs the top-level RSTWriter: the new RST document `world` is a result")
+            if "from_assign" in opts and "to_assign" in opts:
                 comment.append(f"   translated: lines {f.stmts[0].lineno}-{f.stmts[-1].end_lineno}, from the first "
                                f"assignment of {opts['from_assign']} to the last one of {opts['to_assign']}; the "
                                f"results are what the function then passes to  {opts['then_call']}")
@@ -2887,6 +3609,8 @@ def generate(repo):
                 comment.append("   note: " + n.replace('"', "'").replace("(*", "( *").replace("*)", "* )"))
             comment[-1] += " *)"
             defs.append("\n".join(comment) + "\n" + text)
+        if rel == DISPATCH_ROOT[2]:
+            defs.append(emit_dispatch(mod, repo))
         if need_writer:
             out.append("From CMinx Require Import Model.Writer.")
         if any("Parser." in d or "DocTypes." in d or "Aggregator." in d for d in defs):
